@@ -40,7 +40,10 @@ PRECOND_SETTINGS = {
     "ciq_pc5": (True, 800, True, 1, 5),
     "ciq_pc15": (True, 800, True, 1, 15),
 }
-ALL_SETTINGS = dict(SETTINGS, **PRECOND_SETTINGS)
+# family (d), fallback route: with an ineffective Cholesky jitter a rank-deficient member makes psd_safe_cholesky raise and
+# LinearOperator.root_decomposition falls back to its symeig branch (entries 3, 4 = None: preconditioner settings untouched)
+FALLBACK_SETTINGS = {"tinyjitter": (False, 800, True, None, None, 1e-30)}
+ALL_SETTINGS = dict(SETTINGS, **PRECOND_SETTINGS, **FALLBACK_SETTINGS)
 
 
 def settings_ctx(st):
@@ -49,9 +52,11 @@ def settings_ctx(st):
     es.enter_context(settings.ciq_samples(bool(st[0])))
     es.enter_context(settings.max_cholesky_size(int(st[1])))
     es.enter_context(settings.fast_computations(covar_root_decomposition=bool(st[2])))
-    if len(st) > 3:
+    if len(st) > 3 and st[3] is not None:
         es.enter_context(settings.min_preconditioning_size(int(st[3])))
         es.enter_context(settings.max_preconditioner_size(int(st[4])))
+    if len(st) > 5:
+        es.enter_context(settings.cholesky_jitter(float_value=float(st[5]), double_value=float(st[5]), half_value=float(st[5])))
     return es
 
 
@@ -194,7 +199,14 @@ def gen_struct(rng, cls, batch, n, rot, var=False):
     raise ValueError(cls)
 
 
-def gen_expr(rng, cls, batch, n, rot):
+def gen_expr(rng, cls, batch, n, rot, dtype="float64"):
+    if cls.endswith("XS") or cls.endswith("@xs"):      # family (d): extreme member scales (c18_hist.xs_scales)
+        with H.xs_scales(dtype):
+            if cls == "DenseSingXS":
+                return {"cls": "Dense", "t": H.sing_xs(rng, batch, n)}
+            if cls.endswith("@xs"):
+                return gen_struct(rng, cls[:-3] + "@var", batch, n, rot)
+            return H.gen_var_leaf(rng, cls[:-2] + "Var", batch, n)
     if cls.endswith("@pc"):                    # family (c): operators that supply a preconditioner (c18_hist.gen_pc)
         c = cls[:-3]
         if c in ("AddedDiag", "AddedDiagSpec"):
@@ -220,13 +232,16 @@ TARGETS = ["top", "leaf", "all"]
 TRANSPLANT_HIST = [[], ["rd"], ["cholesky"], ["sample"], ["ri_cholesky"]]
 
 
-def hist_tag(steps, target, derive=None):
-    return "steps=%s;target=%s;derive=%s" % ("+".join(steps), target, derive or "")
+def hist_tag(steps, target, derive=None, dtype=None):
+    return "steps=%s;target=%s;derive=%s" % ("+".join(steps), target, derive or "") + (";dtype=%s" % dtype if dtype else "")
 
 
 def parse_tag(tag):
     d = dict(x.split("=", 1) for x in tag.split(";"))
-    return {"steps": [x for x in d["steps"].split("+") if x], "target": d["target"], "derive": d["derive"] or None}
+    h = {"steps": [x for x in d["steps"].split("+") if x], "target": d["target"], "derive": d["derive"] or None}
+    if d.get("dtype"):
+        h["dtype"] = d["dtype"]
+    return h
 
 
 def var_cells(quick):
@@ -285,6 +300,43 @@ def pc_cells(quick):
                 cls = H.PC_ROT[(hi + bc + si) % 3] + "@pc"
                 cells.append((cls, sn, b, 1 + (hi + bc) % 3, [5, 3, 8][(hi + si) % 3] if M.prod(BATCHES[b]) <= 2 else 3,
                               hist_tag(steps, "top")))
+    return cells
+
+
+XS_CLS = ["DenseXS", "AddedDiagXS", "SumXS", "PsdSum@xs", "BlockDiag@xs", "ConstantMulXS"]
+XS_HIST = [[], ["diagonalization"], ["diagonalization_symeig"], ["diagonalization_lanczos"], ["eigh"], ["eigvalsh"], ["rd_symeig"],
+           ["rd_svd"], ["rd_cholesky"], ["rd"], ["ri"], ["ri_symeig"], ["ri_cholesky"], ["ri_lanczos_iv1"], ["cholesky"], ["logdet"],
+           ["solve"], ["svd"], ["inv_quad_logdet"], ["eigh", "ri_iv1"], ["diagonalization", "cholesky"]]
+XS_BATCH = [6, 5, 8, 7, 2]            # [3], [2,3], [2,1,2], [2,2], [2]
+
+
+def xs_cells(quick):
+    """family (d): batches whose members differ in scale by more than 1/(n eps) (float64 and float32), sampled after the
+    calls that fill the caches _choose_root_method reads; plus the Cholesky-failure -> symeig fallback (singular member)"""
+    cells = []
+    for hi, steps in enumerate(XS_HIST):
+        for di, dt in enumerate(("float64", "float32")):
+            for r in range(1 if quick else len(XS_BATCH)):
+                for cr in range(1 if quick else 2):
+                    b = XS_BATCH[(hi + di + r) % len(XS_BATCH)]
+                    cls = XS_CLS[(hi + 2 * di + r + 3 * cr) % len(XS_CLS)]
+                    if dt == "float32" and cls.endswith("@xs"):
+                        # float32 operators are built without the model tree: their generic leaves are not addressable,
+                        # so the history must act on the sampled object itself
+                        cls = ["DenseXS", "AddedDiagXS", "SumXS", "ConstantMulXS"][(hi + r + cr) % 4]
+                    n = [3, 5, 4, 2][(hi + di + r + cr) % 4]
+                    k = 1 + (hi + r) % 3
+                    cells.append((cls, "default", b, k, n, hist_tag(steps, TARGETS[(hi + r + cr) % 3], None, dt)))
+                    if dt == "float64" and (not quick or hi % 3 == 0):
+                        cells.append((cls, "lanczos", b, k, max(n, 3), hist_tag(steps, TARGETS[(hi + r + cr) % 3], None, dt)))
+                    if not quick or hi % 4 == 1:
+                        cells.append((cls, "fastoff", b, k, max(n, 3), hist_tag(steps, "top", None, dt)))
+    for si, steps in enumerate(([], ["rd_cholesky"], ["cholesky"], ["diagonalization"], ["rd"])):
+        for di, dt in enumerate(("float64", "float32")):
+            for r in range(2 if quick else len(XS_BATCH)):
+                b = XS_BATCH[(si + di + r) % len(XS_BATCH)]
+                cells.append(("DenseSingXS", "default", b, 1 + (si + r) % 3, [3, 5, 4][(si + r) % 3], hist_tag(steps, "top", None, dt)))
+                cells.append(("DenseSingXS", "tinyjitter", b, 1 + (si + r) % 3, [3, 5, 4][(si + r) % 3], hist_tag(steps, "top", None, dt)))
     return cells
 
 
@@ -362,6 +414,7 @@ def grid(ctx):
     cells += var_cells(ctx.quick)
     cells += hist_cells(ctx.quick)
     cells += pc_cells(ctx.quick)
+    cells += xs_cells(ctx.quick)
     seen = set()
     out = []
     for c in cells:
@@ -375,8 +428,9 @@ def make_case(seed, cell, idx):
     cls, sn, b, k, n = cell[:5]
     rng = random.Random("%s|%s|%d" % (seed, "|".join(map(str, cell)), 0))
     rot = rng.randrange(1000)
+    hist = parse_tag(cell[5]) if len(cell) > 5 else None
     try:
-        e = gen_expr(rng, cls, BATCHES[b], n, rot)
+        e = gen_expr(rng, cls, BATCHES[b], n, rot, (hist or {}).get("dtype") or "float64")
     except Exception as ex:                       # generator limitation, not a finding
         return {"cell": cell, "gen_error": repr(ex)[:200]}
     case = {"cell": list(cell), "expr": e, "st_name": sn, "st": list(ALL_SETTINGS[sn]), "k": k,
@@ -502,12 +556,16 @@ def eval_case(case):
     steps, target, dname = hist.get("steps", []), hist.get("target", "top"), hist.get("derive")
     res = {"fails": [], "notes": [], "coq": None}
     A = opbuild.dense(e)
+    f32 = hist.get("dtype") == "float32"
+    ftol = 1e-4 if f32 else 1e-9          # exact paths: a few units of round-off of the dtype, relative to the member
     try:
         torch.manual_seed(case["nseed"] % (1 << 31))
         try:
+            if f32:
+                raise M.Unsupported("float32 (the model is compared on binary64 only)")
             op, node = M.build_tree(e)
         except M.Unsupported as u:
-            op, node = opbuild.build(e), None
+            op, node = opbuild.build(e, torch.float32 if f32 else torch.float64), None
             res["notes"].append("unmodelled: %s" % u)
     except Exception as ex:
         res["skip"] = "constructor raised %s" % repr(ex)[:160]
@@ -567,7 +625,8 @@ def eval_case(case):
                     base = [N._real_randn(M.prod(s), generator=g, dtype=torch.float64) for s, _ in plan]
                 J, offs = N.jacobian(patch, op.zero_mean_mvn_samples, k, plan, base=base)
                 if node is not None:
-                    M.resolve_roots(node, st, observed=bool(steps))
+                    # rank-deficient members: psd_safe_cholesky's jitter / the symeig fallback decide the root (C16): read it
+                    M.resolve_roots(node, st, observed=bool(steps) or "SingXS" in str(case["cell"][0]))
     except Exception as ex:
         tb = traceback.extract_tb(ex.__traceback__)
         where = next((f for f in reversed(tb) if "linear_operator" in f.filename), tb[-1])
@@ -603,7 +662,7 @@ def eval_case(case):
         Jf = J.reshape(k, B, n, J.shape[-1])
         zflat = torch.tensor([x for z in zs for x in z], dtype=torch.float64)
         lin = float((Jf @ zflat - out1.reshape(k, B, n).to(torch.float64)).abs().max())
-        lin_tol = (1e-5 if st[0] else 1e-9) * max(1.0, float(out1.abs().max()))
+        lin_tol = (1e-5 if st[0] else ftol) * max(1.0, float(out1.abs().max()))
         if st[0] and not spectrum_ok(e, simple=not st[0]):
             lin_tol = None        # CIQ outside its accurate regime: the quadrature (chosen from the noise) is visibly noise dependent
         if lin_tol is not None and not lin <= lin_tol:
@@ -626,7 +685,14 @@ def eval_case(case):
                 tol = None
                 res["notes"].append("root accuracy not assessed (approximate root, spectrum not simple / kappa > 100)")
         else:
-            tol = 1e-9
+            tol = ftol
+        if tol == ftol and "SingXS" in str(case["cell"][0]):
+            # the rank-deficient member is factorized with psd_safe_cholesky's jitter (up to 100 x settings.cholesky_jitter,
+            # absolute, on a member of scale >= 1) unless the symeig fallback is taken: the jitter loop itself is C16's
+            tol = 3e-4 if f32 else 2e-6
+        if f32 and inexact:
+            tol = None
+            res["notes"].append("root accuracy not assessed (approximate root in float32)")
         res["cov_tol"] = tol
         if tol is not None and not cov_err <= tol:
             f = {"fail": "cov", "err": cov_err, "tol": tol, "member": worst, "members": B}
@@ -644,7 +710,7 @@ def eval_case(case):
                 except Exception:
                     pass
             res["fails"].append(f)
-        if not cross <= (1e-5 if st[0] else 1e-9):
+        if not cross <= (1e-5 if st[0] else ftol):
             res["fails"].append({"fail": "draws-correlated", "err": cross})
     else:
         res["notes"].append("no noise requested")
@@ -778,6 +844,43 @@ def eval_probe(pc):
     return res
 
 
+METH_CODE = {"symeig": 0, "diagonalization": 1, "lanczos": 2, "cholesky": 3}
+
+
+def probe_method_table():
+    """LinearOperator._choose_root_method on a real operator for every combination of cached entries
+    {symeig, diagonalization, lanczos} x size below / above max_cholesky_size x fast covar_root_decomposition on / off;
+    rows (max_chol, fast, has_symeig, has_diag, has_lanczos, n, observed code) for coq/C18/Check.v bad_meth"""
+    import itertools
+    import linear_operator.operators as O
+    from linear_operator import settings
+    from linear_operator.utils.memoize import add_to_cache
+    rows = []
+    for (n, mc) in ((3, 800), (3, 2), (2, 2), (1, 0), (5, 4)):
+        for fast in (True, False):
+            for flags in itertools.product((False, True), repeat=3):
+                op = O.DenseLinearOperator(torch.eye(n, dtype=torch.float64))
+                for name, on in zip(("symeig", "diagonalization", "lanczos"), flags):
+                    if on:
+                        add_to_cache(op, name, object())
+                with settings.max_cholesky_size(mc), settings.fast_computations(covar_root_decomposition=fast):
+                    try:
+                        got = METH_CODE.get(op._choose_root_method(), 99)
+                    except Exception:
+                        got = 98
+                rows.append((mc, fast, flags[0], flags[1], flags[2], n, got))
+    return rows
+
+
+def meth_shard_src(rows):
+    lit = ";\n ".join("(MkMeth (MkSett false %d %s) (MkCState %s %s %s) %d %d)" % (
+        mc, common.coq_bool(fast), common.coq_bool(a), common.coq_bool(b), common.coq_bool(c), n, got)
+        for (mc, fast, a, b, c, n, got) in rows)
+    return ("From mathcomp Require Import ssreflect ssrfun ssrbool eqtype ssrnat seq.\n"
+            "From Coq Require Import PrimFloat.\nRequire Import C18.Model C18.ModelBatch C18.Check.\n"
+            "Definition cases : seq methcase := [::\n %s].\nEval vm_compute in (bad_meth cases 0).\n" % lit)
+
+
 def _worker(case):
     try:
         if case.get("probe"):
@@ -907,8 +1010,12 @@ def run(ctx):
     CSH = 40
     for s in range(0, len(ciq_items), CSH):
         shards.append(("c18_ciq_%d" % (s // CSH), M.ciq_shard_src([M.coq_ciq_case(rule, 1e-9) for _, rule in ciq_items[s:s + CSH]])))
+    n_ciq_end = len(shards)
+    meth_rows = probe_method_table()
+    shards.append(("c18_meth", meth_shard_src(meth_rows)))
     mism = []
     ciq_mism = []
+    meth_mism = []
     if ok and shards:
         t0 = time.time()
         out = common.run_shards(ctx, shards, timeout=600)
@@ -922,8 +1029,16 @@ def run(ctx):
             for x in bad:
                 if si < n_main:
                     mism.append((coq_idx[si * SH + x // 8], x % 8))
+                elif si >= n_ciq_end:
+                    meth_mism.append(meth_rows[x // 8])
                 else:
                     ciq_mism.append((ciq_items[(si - n_main) * CSH + x // 8], x % 8))
+    for row in meth_mism[:3]:
+        ctx.violation({"kind": "model-implementation-disagreement", "comparison": "root-method-table",
+                       "row": dict(zip(("max_cholesky_size", "fast_root", "has_symeig", "has_diagonalization", "has_lanczos", "n",
+                                        "observed_code"), row)),
+                       "correspondence": "coq/C18/Check.v bad_meth (ModelBatch.choose_root_method vs _choose_root_method)"},
+                      no_input=True)
     n_ciq_alarm = 0
     for (i, rule), code in ciq_mism:
         if results[i]["fails"]:
@@ -1014,6 +1129,9 @@ def run(ctx):
         "skipped_constructor": sum(1 for r in results if r.get("skip")),
         "coq_compared": len(coq_idx), "coq_mismatches": len(mism), "model_alarms": n_model_alarm,
         "ciq_rules_compared": len(ciq_items), "ciq_rule_mismatches": len(ciq_mism),
+        "method_table_rows": len(meth_rows), "method_table_mismatches": len(meth_mism),
+        "extreme_scale_cases": sum(1 for c in cases if "XS" in str(c["cell"][0]) or "@xs" in str(c["cell"][0])),
+        "float32_cases": sum(1 for c in cases if (c.get("history") or {}).get("dtype") == "float32"),
         "direct_property_failures": direct,
         "root_accuracy_not_assessed": sum(1 for r in results if any("not assessed" in x for x in r.get("notes", []))),
         "unmodelled": sum(1 for r in results if any(x.startswith("unmodelled") for x in r.get("notes", []))),
